@@ -5,7 +5,7 @@
 From Coq Require Import List NArith Bool.
 From Conductor Require Import Lib.Regex Lib.PyRegex Lib.Str Proofs.IdentSpec.
 Import ListNotations.
-Open Scope N_scope.
+Local Open Scope N_scope.
 
 Definition old_name_regex : pyre :=
   {| body := Cat ((Cls [(97, 122); (65, 90); (48, 57); (95, 95); (45, 45)])) (Star (Cls [(97, 122); (65, 90); (48, 57); (95, 95); (45, 45)]));
